@@ -82,6 +82,10 @@ REQUESTS.update({
     "while": {"dtype": "float32", "x": (3, 4), "consts": [], "custom": "while"},
     "fori_f64": {"dtype": "float32", "x": (3, 4), "consts": [], "custom": "fori", "f64": True},
     "plain_f64": {"dtype": "float32", "x": (3, 4), "consts": [], "custom": "plain", "f64": True},
+    # a tensor above the spill threshold that lives ONLY inside a control-flow body (closed over by the
+    # loop body): the external-data path and every clean-up step must see nested graphs too
+    "fori_bigconst": {"dtype": "float32", "x": (262200,), "consts": [(262200,)], "custom": "fori_bigconst"},
+    "fori_smallconst": {"dtype": "float32", "x": (100,), "consts": [(100,)], "custom": "fori_bigconst"},
 })
 for _r in REQUESTS.values():
     _r["sizes"] = [int(np.prod(c)) * np.dtype(_r["dtype"]).itemsize for c in _r["consts"]]
@@ -93,6 +97,13 @@ def build_custom(req: dict, seed: int):
     rs = np.random.RandomState(seed)
     w = (rs.randint(-8, 9, size=(4, 4)) / 8).astype(np.float32)
     kind = req["custom"]
+    if kind == "fori_bigconst":
+        big = (rs.randint(-64, 64, size=req["consts"][0]) / 16).astype(np.float32)
+
+        def fn(x):
+            return jax.lax.fori_loop(0, 2, lambda i, c: c * 0.5 + jnp.asarray(big), x)
+        x = (rs.randint(-8, 9, size=req["x"]) / 8).astype(np.float32)
+        return fn, x, [big]
     if kind == "plain":
         def fn(x):
             return jnp.tanh(x @ w) + 1.0
@@ -139,6 +150,21 @@ def build_fn(req: dict, seed: int):
     return fn, x, consts
 
 
+def all_initializers(graph: Any, prefix: str = "") -> list:
+    """(label, TensorProto) of every initializer of the graph and of all nested graphs, in the order
+    onnx's external-data helpers visit them (own initializers, then node by node, attribute by attribute)"""
+    import onnx
+    out = [(prefix + t.name, t) for t in graph.initializer]
+    for n in graph.node:
+        for at in n.attribute:
+            if at.type == onnx.AttributeProto.GRAPH:
+                out += all_initializers(at.g, prefix + "sub/")
+            elif at.type == onnx.AttributeProto.GRAPHS:
+                for g in at.graphs:
+                    out += all_initializers(g, prefix + "sub/")
+    return out
+
+
 def sha(b: bytes) -> str:
     return hashlib.sha1(b).hexdigest()[:16]
 
@@ -172,14 +198,14 @@ class Requests:
                              {"request": name, "seed": seed, "history": {"steps": [{"req": name, "mode": "web",
                               "seed": seed}], "side0": None, "relative": False},
                               "how": "harness/props/c15.py::replay (converts the request in proto and ir mode)"})
-        rq = [[i.name, bool(i.HasField("raw_data")), len(i.raw_data) if i.HasField("raw_data") else
-               len(i.SerializeToString())] for i in proto.graph.initializer]
+        rq = [[nm, bool(i.HasField("raw_data")), len(i.raw_data) if i.HasField("raw_data") else
+               len(i.SerializeToString())] for nm, i in all_initializers(proto.graph)]
         got_sizes = sorted(r[2] for r in rq)
         if not req.get("custom") and sorted(req["sizes"]) != got_sizes:
             # the converter merged/split the constants: the request no longer exercises what it should
             raise RuntimeError(f"request {name}: expected initializers of {req['sizes']} bytes, export has {rq}")
         d = {"fn": fn, "x": x, "kw": kw, "proto": proto, "req": rq, "ort": None,
-             "digests": [sha(i.raw_data) for i in proto.graph.initializer]}
+             "digests": [sha(i.raw_data) for _, i in all_initializers(proto.graph)]}
         self.cache[key] = d
         return d
 
@@ -222,7 +248,7 @@ def canonical_bytes(model: Any) -> bytes:
     import onnx
     m = onnx.ModelProto()
     m.CopyFrom(model)
-    for t in m.graph.initializer:
+    for _, t in all_initializers(m.graph):
         if t.data_location == onnx.TensorProto.DEFAULT and not t.external_data:
             t.ClearField("data_location")
     return m.SerializeToString(deterministic=True)
@@ -236,15 +262,15 @@ def observe(path: str) -> dict:
     if os.path.exists(path):
         m = onnx.load(path, load_external_data=False)
         ents = []
-        for i in m.graph.initializer:
+        for nm, i in all_initializers(m.graph):
             ext = {e.key: e.value for e in i.external_data}
             if ext:
                 if ext.get("location") != os.path.basename(dp):
-                    ents.append(f"{i.name}:foreign({ext.get('location')})")
+                    ents.append(f"{nm}:foreign({ext.get('location')})")
                 else:
-                    ents.append(f"{i.name}:e{ext.get('offset', '0')}+{ext.get('length')}")
+                    ents.append(f"{nm}:e{ext.get('offset', '0')}+{ext.get('length')}")
             else:
-                ents.append(f"{i.name}:i{len(i.raw_data) if i.HasField('raw_data') else len(i.SerializeToString())}")
+                ents.append(f"{nm}:i{len(i.raw_data) if i.HasField('raw_data') else len(i.SerializeToString())}")
         out["main"] = ents
     return out
 
@@ -258,7 +284,10 @@ def show(obs: dict, ok: bool) -> str:
 STEP_KINDS = [("small", "standard"), ("below", "standard"), ("at", "standard"), ("big", "standard"),
               ("two_big", "standard"), ("mixed", "standard"), ("f32_below", "standard"), ("f32_above", "standard"),
               ("big", "web"), ("small", "web"), ("two_big", "web"), ("tiny_other_graph", "standard"),
-              ("tiny_other_graph", "web"), ("fori", "standard"), ("scan", "standard"), ("fori_f64", "standard")]
+              ("tiny_other_graph", "web"), ("fori", "standard"), ("scan", "standard"), ("fori_f64", "standard"),
+              ("fori_bigconst", "standard"), ("fori_bigconst", "web"), ("fori_smallconst", "standard"),
+              # every spelling the mode validation accepts must reach the same export path
+              ("big", "Web"), ("big", " web "), ("two_big", "WEB"), ("big", "Standard"), ("small", " STANDARD ")]
 
 
 def gen_histories(rng: common.Rng, thorough: bool) -> list[dict]:
@@ -271,6 +300,9 @@ def gen_histories(rng: common.Rng, thorough: bool) -> list[dict]:
         [("f32_above", "standard"), ("f32_below", "standard"), ("mixed", "standard"), ("small", "web")],
         # control-flow bodies and double precision: proto == to_proto(ir) == file for those too
         [("fori", "standard"), ("scan", "web"), ("while", "standard"), ("fori_f64", "web"), ("plain_f64", "standard")],
+        # a large tensor only inside a Loop body; non-canonical spellings of the modes
+        [("fori_bigconst", "standard"), ("small", "standard"), ("fori_bigconst", "web"), ("fori_bigconst", "standard")],
+        [("big", "Web"), ("big", "Standard"), ("two_big", " web "), ("big", "WEB")],
     ]
     for k, f in enumerate(fixed):
         hs.append({"steps": [{"req": r, "mode": m, "seed": (k * 7 + i) % 3} for i, (r, m) in enumerate(f)],
@@ -318,6 +350,8 @@ def run_history(chk: Check, reqs: Requests, h: dict, stats: dict) -> tuple[str, 
             with open(dp, "wb") as fh:
                 fh.write(bytes((i * 37 + 11) % 251 for i in range(h["side0"])))
         for i, st in enumerate(h["steps"]):
+            spelled = st["mode"]                       # what the caller writes
+            st = dict(st, mode=spelled.strip().lower())   # what it means (the validation's normal form)
             r = reqs.get(st["req"], st["seed"])
             if not h["relative"]:
                 os.chdir(foreign if st.get("foreign_cwd") else cwd)
@@ -330,7 +364,7 @@ def run_history(chk: Check, reqs: Requests, h: dict, stats: dict) -> tuple[str, 
             ok, err = True, None
             try:
                 ret = to_onnx(r["fn"], [r["x"]], return_mode="file", output_path=out_path,
-                              export_mode=st["mode"], model_name="m", **r["kw"])
+                              export_mode=spelled, model_name="m", **r["kw"])
                 reqs.conversions += 1
             except Exception as e:
                 ok, err = False, f"{type(e).__name__}: {str(e)[:100]}"
@@ -338,7 +372,7 @@ def run_history(chk: Check, reqs: Requests, h: dict, stats: dict) -> tuple[str, 
             records.append(show(obs, ok))
             dsteps.append({"mode": st["mode"], "clash": bool(clash), "req": r["req"]})
             stats["steps"] += 1
-            case = {"history_step": i, "request": st["req"], "mode": st["mode"], "seed": st["seed"],
+            case = {"history_step": i, "request": st["req"], "mode": st["mode"], "spelled": spelled, "seed": st["seed"],
                     "relative_path": h["relative"], "side0": h["side0"], "observed": records[-1]}
             chk.count(case, nontrivial=(i > 0 or h["side0"] is not None))
             replay = {"history": h, "failed_at_step": i, "how": "harness/props/c15.py::replay"}
@@ -368,7 +402,7 @@ def run_history(chk: Check, reqs: Requests, h: dict, stats: dict) -> tuple[str, 
                 stats["oracle_failures"] += 1
                 continue
             if canonical_bytes(loaded) != canonical_bytes(r["proto"]):
-                dig = [sha(t.raw_data) for t in loaded.graph.initializer]
+                dig = [sha(t.raw_data) for _, t in all_initializers(loaded.graph)]
                 which = "tensor bytes" if dig != r["digests"] else "graph/metadata"
                 chk.finding({"kind": "file_ne_proto", "mode": st["mode"], "differs_in": which},
                             f"onnx.load of the {st['mode']} file differs from return_mode='proto' ({which}) "
@@ -408,8 +442,12 @@ def run_history(chk: Check, reqs: Requests, h: dict, stats: dict) -> tuple[str, 
                 try:
                     p2 = os.path.join(d2, "alone.onnx")
                     shutil.copy(path, p2)
-                    alone = ort_run(p2, r["x"])
-                    if any(not np.array_equal(a, b) for a, b in zip(alone, r["ort"])) or os.path.exists(dp):
+                    try:
+                        alone = ort_run(p2, r["x"])
+                    except Exception:  # noqa: BLE001   the file needs something else next to it
+                        alone = None
+                    if alone is None or any(not np.array_equal(a, b) for a, b in zip(alone, r["ort"])) \
+                            or os.path.exists(dp):
                         chk.finding({"kind": "web_not_self_contained"},
                                     "web export is not a single self-contained file", replay)
                         stats["oracle_failures"] += 1
